@@ -34,7 +34,7 @@ CHECKS.update({
  "C17": ("SlotTable.tla + TLC: all interleavings of fresh/numeric/named to depth 4/5 with invariants FreshIsNew, NamesInjective, RoundTrip; every behaviour replayed in a fresh thread",
          "fresh slots are new, distinct names denote distinct slots, print/parse round-trips, on every interleaving of the bounded model", "5 C17"),
 })
-CHECKS["C10"] = ("Group.tla (brute-force subgroup closure) + TLC: every (subgroup, <=3 generators) transition of S2-S4 replayed on the real Group via hook H1 and through unions in the e-graph; TraceGroup.tla validates recorded random cases on 5/6 points",
+CHECKS["C10"] = ("Group.tla (brute-force subgroup closure) + GroupOp.tla (stabiliser-chain model, checked to refine it) + TLC: every (subgroup, <=3 generators) transition of S2-S4 replayed on the real Group via hook H1 and through unions in the e-graph; TraceGroup.tla validates recorded random cases on 5/6 points",
          "membership, enumeration, order, orbits and growth flag agree with the generated subgroup; permuted copies are equal in the e-graph exactly for group members", "5 C10")
 CHECKS["C16"] = ("Shape.tla (scoped reference shape, occurrence lists) + TLC: records of the derived Language impl for all 3498 enumerated e-nodes judged by TraceShape.tla (impl->spec), global bijection impl-shape <-> reference renaming class",
          "the 11 shape / occurrence / syntax laws hold for every enumerated node of the derived language T", "5 C16")
